@@ -796,18 +796,23 @@ theorem performJoin_ok_implies {P} (i : PerformJoinIn P) (o : PerformJoinOut) (h
 
 /-! ## HandleInviteV3
 
-  The pseudo-ID variant receives a PROTO event and no signature: nothing is verified and nothing says
-  the proto event is an invite — what it returns is an event it BUILT itself from the proto event with the
-  invited user's sender ID as state key, signed with that user's room key (not with the server key).
-  Guards it does enforce: known room version, room ID of the proto event = request, and the common checks
-  (target not already joined in a known room).  C15's statement speaks of HandleInvite; the decision
-  table of the V3 variant is recorded for completeness. -/
+  The pseudo-ID variant receives a PROTO event and no signature: nothing is verified — what it returns is an event it
+  BUILT itself from the proto event with the invited user's sender ID as state key, signed with that user's room key
+  (not with the server key).  Guards: known room version, room ID of the proto event = request, the proto event is an
+  `m.room.member` event with membership `invite` (round-4 repair; before it nothing said the proto event is an invite
+  and the handler signed whatever it was given), and the common checks (target not already joined in a known room). -/
 
 theorem inviteV3_ok_implies (i : InviteV3In) (o : InviteOut) (h : handleInviteV3 i = .ok o) :
-    i.common.versionKnown = true ∧ i.protoRoomID = i.common.roomID ∧ i.buildOK = true ∧
+    inviteV3Guards i = true ∧
+    i.common.versionKnown = true ∧ i.protoRoomID = i.common.roomID ∧
+    i.protoType = b!"m.room.member" ∧ i.protoMembership = some b!"invite" ∧ i.buildOK = true ∧
     (∃ sid, i.invitedSenderID = some sid ∧ o.sig = { signer := sid, keyID := b!"ed25519:1" }) ∧
     ¬ (i.common.knownRoom matches .ans true ∧ i.common.curMembership = some b!"join") := by
   unfold handleInviteV3 at h
+  split at h
+  · cases h
+  split at h
+  · cases h
   split at h
   · cases h
   split at h
@@ -818,11 +823,27 @@ theorem inviteV3_ok_implies (i : InviteV3In) (o : InviteOut) (h : handleInviteV3
     split at h
     · cases h
     · obtain ⟨hs, _, hj, _⟩ := inviteCommonChecks_ok h
-      exact ⟨by simp_all, by simp_all, by simp_all, ⟨sid, hsid, hs⟩, hj⟩
+      have h2 : i.protoRoomID = i.common.roomID := by simp_all
+      have h3 : i.protoType = b!"m.room.member" := by simp_all
+      have h4 : i.protoMembership = some b!"invite" := by simp_all
+      refine ⟨?_, by simp_all, h2, h3, h4, by simp_all, ⟨sid, hsid, hs⟩, hj⟩
+      unfold inviteV3Guards
+      simp only [h2, h3, h4, beq_self_eq_true, Bool.true_and, Bool.not_eq_true', Bool.and_eq_false_iff]
+      cases hk : i.common.knownRoom with
+      | err => simp
+      | ans b =>
+        cases b with
+        | false => simp
+        | true =>
+          right
+          cases hc : (i.common.curMembership == some b!"join") with
+          | false => rfl
+          | true => exact absurd ⟨by simp [hk], by simpa using hc⟩ hj
 
 theorem inviteV3_decision_table (i : InviteV3In) :
     handleInviteV3 i =
       match (([(!i.common.versionKnown, eUnsupported), (i.protoRoomID != i.common.roomID, eBadJSON),
+               (i.protoType != b!"m.room.member", eBadJSON), (i.protoMembership != some b!"invite", eBadJSON),
                (i.invitedSenderID.isNone, .internal), (!i.buildOK, .internal)] : List (Bool × HErr)).find? (·.1)) with
       | some (_, e) => .error e
       | none => inviteCommonChecks i.common { signer := i.invitedSenderID.getD [], keyID := b!"ed25519:1" } := by
@@ -831,9 +852,25 @@ theorem inviteV3_decision_table (i : InviteV3In) :
   case true => simp
   cases h2 : (i.protoRoomID != i.common.roomID)
   case true => simp
+  cases h3 : (i.protoType != b!"m.room.member")
+  case true => simp
+  cases h4 : (i.protoMembership != some b!"invite")
+  case true => simp
   cases hs : i.invitedSenderID with
   | none => simp
   | some sid => cases hb : (!i.buildOK) <;> simp
+
+/-- non-vacuity, and the inputs of the round-4 finding: a proto event that is not an invite -/
+def inviteV3Witness : InviteV3In :=
+  { common := { inviteWitness with roomID := b!"!room:hs2", eventRoomID := b!"!room:hs2" },
+    protoRoomID := b!"!room:hs2", protoType := b!"m.room.member", protoMembership := some b!"invite",
+    invitedSenderID := some b!"invitee-room-key", buildOK := true }
+
+example : handleInviteV3 inviteV3Witness = .ok { sig := ⟨b!"invitee-room-key", b!"ed25519:1"⟩, strippedLen := 2 } := by rfl
+example : inviteV3Guards inviteV3Witness = true := by rfl
+example : handleInviteV3 { inviteV3Witness with protoType := b!"m.room.power_levels" } = .error eBadJSON := by rfl
+example : handleInviteV3 { inviteV3Witness with protoMembership := some b!"join" } = .error eBadJSON := by rfl
+example : handleInviteV3 { inviteV3Witness with protoMembership := none } = .error eBadJSON := by rfl
 
 /-! ## PerformInvite (requesting side of the invite handshake)
 
